@@ -151,9 +151,9 @@ def replay(item):
             "signature": f"gateway {lab} [{frame[4:6].strip()}|{frame[41:45]}]" if item["label"] in labs else None}
 
 
-def h_schema(ctx, bname, n):
+def h_schema(ctx, bname, n, poll=False):
     """a plain execution (no solver variable): the schema clause on one concrete history"""
-    r = _schema_one(bname, n)
+    r = _schema_one(bname, n, poll=poll)
     ctx.check(r[1], "C16gw:restored-gateway-reports-the-same-schema-and-packets", r[2])
     return "ok" if r[1] else "differs"
 
@@ -166,20 +166,25 @@ def schema_queries(tier):
     for b, n in BASES_THOROUGH:
         for nn in (n, 10**6):
             out.append(Query(f"gwfix-schema[{b}|{'all' if nn > 10**5 else nn}]", lambda c, a=(b, nn): h_schema(c, *a), {"h": "gwfix-schema", "base": b, "n": nn}, group="gwfix-schema", max_secs=300))
+        # ... and with a device that is only ever heard asking (requests are not part of a snapshot)
+        out.append(Query(f"gwfix-schema[{b}|{n}+poller]", lambda c, a=(b, n, True): h_schema(c, *a), {"h": "gwfix-schema", "base": b, "n": n, "poll": True}, group="gwfix-schema", max_secs=300))
     return out
 
 
 def replay_schema(item):
     GV._PLAIN[0] = True
-    r = _schema_one(item["params"]["base"], item["params"]["n"], symbolic=False)
+    r = _schema_one(item["params"]["base"], item["params"]["n"], symbolic=False, poll=item["params"].get("poll", False))
     return {"reproduced": not r[1], "observed": f"history {r[0]}: saved schema + saved packets into a fresh gateway: {r[2]}"[:500], "signature": f"gateway schema after restore differs [{r[0]}]" if not r[1] else None}
 
 
-def _schema_one(bname, n, symbolic=True):
+def _schema_one(bname, n, symbolic=True, poll=False):
     import os
     from asyncio import events
 
     lines = GV.load_base(bname, n)
+    if poll:
+        ctl = next((f[11:20] for _, f in lines if f[11:13] == "01"), None) or next((f[11:20] for _, f in lines if f[11:13] not in ("18", "--", "63")), "01:145038")
+        lines = lines + [(GV._dtm_plus(lines[-1][0], 3), f"...  RQ --- 34:092243 {ctl} --:------ 30C9 001 00"[1:])]
     try:
         A = GV.Runner(symbolic)
         for d, f in lines:
